@@ -758,3 +758,8 @@ Theorem kv2_iso_example :
   | None => ([], false, false)
   end = ([0; 3; 1; 2]%nat, true, true).
 Proof. exact iso_example. Qed.
+
+(** The executable test of [graph_iso] the check runs (kernel-evaluated) on the graph the real [Element.parse] returns for every
+    nested-layout case of the correspondence: when it answers [true] the two graphs are isomorphic by that renumbering. *)
+Theorem kv2_graph_iso_test_sound : forall s g g', graph_iso_b s g g' = true -> graph_iso s g g'.
+Proof. exact graph_iso_b_sound. Qed.
